@@ -16,6 +16,7 @@ static std::map<std::string, long> g_labels;
 static bool g_nt = false;
 static long g_skipped = 0, g_ops = 0;
 static std::vector<std::string> g_notes;
+static std::string g_aux;
 void (*cleanup_hook)() = nullptr;   // e.g. removal of the per-case temporary directory; runs before every exit path
 static void run_cleanup() { if (cleanup_hook) { auto f = cleanup_hook; cleanup_hook = nullptr; f(); } }
 
@@ -24,7 +25,7 @@ void set_fuzz_mode(bool on) { g_fuzz = on; }
 // forget everything recorded for the previous case (fuzz mode runs many cases in one process)
 void reset_case_state() {
     alloctrack::Pause p;
-    g_labels.clear(); g_nt = false; g_skipped = 0; g_ops = 0; g_notes.clear(); cleanup_hook = nullptr;
+    g_aux.clear(); g_labels.clear(); g_nt = false; g_skipped = 0; g_ops = 0; g_notes.clear(); cleanup_hook = nullptr;
     for (size_t i = 0; i < alloctrack::CAP; ++i) alloctrack::table[i].p = nullptr;
     alloctrack::live_blocks = 0; alloctrack::total_tracked = 0; alloctrack::depth = 0;
 }
@@ -55,6 +56,7 @@ static void emit(const char *status, const std::string &cls, const std::string &
     o += "\n";
     o += "SKIPPED " + std::to_string(g_skipped) + "\n";
     o += "OPS " + std::to_string(g_ops) + "\n";
+    if (!g_aux.empty()) o += "AUX " + oneline(g_aux) + "\n";
     o += "END\n";
     put(o);
 }
@@ -91,6 +93,7 @@ void label_n(const char *name, long n) { if (g_fuzz) return; alloctrack::Pause p
 void nontrivial() { g_nt = true; }
 void count_skipped(long n) { g_skipped += n; }
 void count_ops(long n) { g_ops += n; }
+void aux(const std::string &text) { alloctrack::Pause p; g_aux = text; }
 
 void note(const char *fmt, ...) {
     if (g_fuzz) return;
